@@ -264,6 +264,9 @@ func runE2E(t *testing.T, r *rep.Reporter, c *rep.Case, idx int) {
 		authUser := ""
 		if authenticate {
 			sp, _ := user.spell(p)
+			if p.Chance(1, 3) {
+				sp = user.canon()
+			}
 			code, _, err := w.cmd("AUTH PLAIN " + b64enc("\x00"+sp+"\x00"+passwords[user.canon()]))
 			if err != nil {
 				fail(err)
@@ -281,8 +284,7 @@ func runE2E(t *testing.T, r *rep.Reporter, c *rep.Case, idx int) {
 		}
 		nmsg := p.Range(2, 4)
 		for mi := 0; mi < nmsg; mi++ {
-			m := cfg.genMessage(p, user, authenticate, 18)
-			m.AuthUser = authUser
+			m := cfg.genMessage(p, user, authUser, 18)
 			if m.MFKinds == "malformed" { // not expressible in SMTP syntax
 				m.MailFrom, m.MFClass, m.MFKinds, m.MFJudged, m.MFRelation = "", "<>", "null", true, "null-reverse-path"
 				for _, v := range cfg.userValues(user.canon()) {
